@@ -11,7 +11,10 @@ Patched files (each symlink is replaced by a regular file; everything else stays
                                       the upper bits and dirOffset are splitmix64(seed)), else the original rand()
   src/internal/runtime/maps/map.go    m.seed (per-map hash seed) = splitmix64(seed) when VerifMapSeed != 0, else rand()
   src/runtime/alg.go                  alginit renamed alginitOrig
-  src/runtime/zz_verif_mapseed.go     NEW: alginit = alginitOrig + (if VERIF_MAPSEED is set in the process environment,
+  src/runtime/rand.go                 rand32 (hash seed of maps the compiler allocates on the stack) renamed rand32Orig
+  src/cmd/compile/internal/walk/builtin.go  stack-allocated maps take their hash seed from runtime.rand32 instead of
+                                      runtime.rand (setup.sh rebuilds pkg/tool/linux_amd64/compile from the patched source)
+  src/runtime/zz_verif_mapseed.go     NEW: rand32 = seed-derived or rand32Orig; alginit = alginitOrig + (if VERIF_MAPSEED is set in the process environment,
                                       read straight from the aux env block because goenvs() has not run yet) fixed
                                       per-process hash keys derived from the seed and maps.VerifMapSeed = seed.
 Without VERIF_MAPSEED (or =0) the runtime behaves exactly like the pristine one (all rand() calls kept).
@@ -105,6 +108,15 @@ for need in ("var aeskeysched [hashRandomBytes]byte", "var hashkey [4]uintptr"):
     if need not in a:
         sys.exit("patch_goroot: alg.go lacks %r" % need)
 changed |= put("src/runtime/alg.go", a)
+# --- rand.go: rand32 is the per-map hash seed of compiler-allocated (non-escaping) maps
+rg = rd("src/runtime/rand.go")
+rg = sub_exact(rg, "func rand32() uint32 {\n\treturn uint32(rand())\n}", "func rand32Orig() uint32 {\n\treturn uint32(rand())\n}", 1, "rand.go")
+changed |= put("src/runtime/rand.go", rg)
+# --- cmd/compile: a non-escaping make(map) with hint <= 8 is allocated on the stack and its hash seed initialised by an
+# inline call to runtime.rand(); route it through runtime.rand32 (patched above). Needs a rebuilt compile tool (setup.sh).
+w = rd("src/cmd/compile/internal/walk/builtin.go")
+w = sub_exact(w, 'rand := mkcall("rand", types.Types[types.TUINT64], init)', 'rand := mkcall("rand32", types.Types[types.TUINT32], init)', 1, "walk/builtin.go")
+changed |= put("src/cmd/compile/internal/walk/builtin.go", w)
 p = rd("src/runtime/proc.go")
 if "argv_index(argv, argc+1+n)" not in p or "alginit()" not in p:
     sys.exit("patch_goroot: proc.go does not look as expected (argv_index / alginit)")
@@ -170,6 +182,16 @@ func alginit() {
 		hashkey[i] = uintptr(x) | 1
 	}
 	maps.VerifMapSeed = seed
+}
+
+// rand32 is called from compiler-generated code: hash seed of a map the compiler allocated on the stack.
+//
+//go:nosplit
+func rand32() uint32 {
+	if s := maps.VerifMapSeed; s != 0 {
+		return uint32(verifMix(s ^ 0x14057b7ef767814f))
+	}
+	return rand32Orig()
 }
 
 // VerifMapSeed reports the active map seed (0 = pristine behaviour).
